@@ -1348,6 +1348,10 @@ def make_builtins(interp):
         return enumerate(it.iterate(xs), start)
 
     def b_zip(it, *xss, strict=False):
+        from .modeb import SSeq
+        if xss and all(isinstance(x, SSeq) for x in xss):
+            # sequences of symbolic length: the harness states that they have the same length (zip stops at the shortest)
+            return SSeq(xss[0].n, lambda i: tuple(x.elem(i) for x in xss), 'zip')
         return zip(*[it.iterate(x) for x in xss])
 
     def b_list(it, xs=()):
